@@ -578,6 +578,41 @@ get_delete() {
 }
 
 /**
+ * The value a variable of the given type holds after being initialized with
+ * the given value: bool, char and short variables do not keep every integer.
+ */
+static CPPExpression::Result
+convert_to_variable_type(const CPPExpression::Result &value, CPPType *type) {
+  if (value._type == CPPExpression::RT_error || type == nullptr) {
+    return value;
+  }
+  CPPSimpleType *stype = type->remove_cv()->as_simple_type();
+  if (stype == nullptr) {
+    return value;
+  }
+  if (stype->_type == CPPSimpleType::T_bool) {
+    return CPPExpression::Result(value.as_boolean());
+  }
+  if (value._type != CPPExpression::RT_integer) {
+    return value;
+  }
+  if (stype->_type == CPPSimpleType::T_char) {
+    if (stype->_flags & CPPSimpleType::F_unsigned) {
+      return CPPExpression::Result((int)(unsigned char)value.as_integer());
+    }
+    return CPPExpression::Result((int)(signed char)value.as_integer());
+  }
+  if (stype->_type == CPPSimpleType::T_int &&
+      (stype->_flags & CPPSimpleType::F_short) != 0) {
+    if (stype->_flags & CPPSimpleType::F_unsigned) {
+      return CPPExpression::Result((int)(unsigned short)value.as_integer());
+    }
+    return CPPExpression::Result((int)(short)value.as_integer());
+  }
+  return value;
+}
+
+/**
  *
  */
 CPPExpression::Result CPPExpression::
@@ -609,12 +644,14 @@ evaluate() const {
         _u._variable->_initializer != nullptr) {
       // A constexpr variable, which is treated as const.
       if (_u._variable->_storage_class & (CPPInstance::SC_constexpr | CPPInstance::SC_constinit)) {
-        return _u._variable->_initializer->evaluate();
+        return convert_to_variable_type(_u._variable->_initializer->evaluate(),
+                                        _u._variable->_type);
       }
       // A const variable.  Fetch its assigned value.
       CPPConstType *const_type = _u._variable->_type->as_const_type();
       if (const_type != nullptr) {
-        return _u._variable->_initializer->evaluate();
+        return convert_to_variable_type(_u._variable->_initializer->evaluate(),
+                                        _u._variable->_type);
       }
     }
     return Result();
